@@ -13,7 +13,6 @@ KNOWN_CLASSES = {
     "cascade": "a scheduled rule deleted by a deleteWith cascade keeps its cron job (lower-case rem calls no hook)",
     "expiry": "a scheduled rule that expires keeps its cron job (expiry calls no hook)",
     "overwrite-unscheduled": "overwriting a scheduled rule by a fact/rule without schedule leaves the old job registered",
-    "linear-load": "LinearState.Load calls no add hook: with an ephemeral cron a reloaded location does not register its scheduled rules again",
     "oneshot-lost": "a one-shot job that fires while its rule is disabled / whose evaluation is cut short is consumed by the cron while the rule stays stored, unregistered",
 }
 
@@ -44,10 +43,6 @@ PROPOSED = [
      "witness": {"kind": "c15.hist", "mode": "real", "state": "indexed", "locs": ["A"], "ops": [
          {"op": "addRule", "loc": "A", "id": "r", "rule": R("0 0 1 1 *")},
          {"op": "addRule", "loc": "A", "id": "r", "rule": {"when": {"pattern": {"a": 1}}, "action": {"code": "Env.bindings", "verif_tmpl": {"t": "echo"}}}}]}},
-    {"property": "C15", "id": "C15-linear-load", "class": "linear-load",
-     "what": "LinearState.Load calls no add hook: after a restart with the (ephemeral) built-in cron a location with linear state does not register its scheduled rules again; they never run",
-     "witness": {"kind": "c15.hist", "mode": "real", "state": "linear", "locs": ["A"], "ops": [
-         {"op": "addRule", "loc": "A", "id": "r", "rule": R("0 0 1 1 *")}, {"op": "restart"}, {"op": "tick", "loc": "A", "id": "r"}]}},
     {"property": "C15", "id": "C15-oneshot-lost", "class": "oneshot-lost",
      "what": "a one-shot job that fires while its rule is disabled is consumed by the cron; the rule stays stored and is never run, even after it is enabled again",
      "witness": {"kind": "c15.hist", "mode": "real", "state": "indexed", "locs": ["A"], "ops": [
@@ -67,6 +62,13 @@ FORMER = [
         {"op": "addRule", "loc": "A", "id": "r", "rule": R("0 0 1 1 *")}, {"op": "addRule", "loc": "B", "id": "q", "rule": R("+1h")},
         {"op": "addFact", "loc": "A", "id": "f", "fact": {"k": 1}}, {"op": "clear", "loc": "A"},
         {"op": "tick", "loc": "A", "id": "r"}, {"op": "tick", "loc": "B", "id": "q"}]},
+    # C15-linear-load: LinearState.Load called no add hook (after a restart with the ephemeral cron the rule never ran)
+    {"kind": "c15.hist", "mode": "real", "state": "linear", "locs": ["A"], "ops": [
+        {"op": "addRule", "loc": "A", "id": "r", "rule": R("0 0 1 1 *")}, {"op": "restart"}, {"op": "tick", "loc": "A", "id": "r"}]},
+    {"kind": "c15.hist", "mode": "real", "state": "linear", "locs": ["A", "B"], "ops": [
+        {"op": "addRule", "loc": "A", "id": "r", "rule": R("0 0 1 1 *")}, {"op": "addRule", "loc": "B", "id": "q", "rule": R("+1h")},
+        {"op": "addFact", "loc": "A", "id": "f", "fact": {"k": 1}}, {"op": "restart"},
+        {"op": "tick", "loc": "B", "id": "q"}, {"op": "tick", "loc": "A", "id": "r"}, {"op": "remRule", "loc": "A", "id": "r"}, {"op": "tick", "loc": "A", "id": "r"}]},
 ]
 
 
